@@ -18,8 +18,7 @@ def build():
     w.refclass('Worker', {'_dbs': 'Map[Obj,PDS]', '_global_schema_pickle': 'Obj', '_system_config': 'Obj',
                           '_last_pickled_state': 'Opt[Obj]', '_closed': 'bool'}, POOL, 'BaseWorker')
     w.rec('Cb', [('worker', 'Worker'), ('dbname', 'Obj'), ('kw', 'Map[str,Obj]')])
-    w.ufunc('pk', ['Obj'], 'Obj'); w.ufunc('unpk', ['Obj'], 'Obj')
-    w.axioms.append('forall(Obj, lambda x: unpk(pk(x)) == x)')
+    w.ufunc('pk', ['Obj'], 'Obj', facts=['unpk(pk(a0)) == a0']); w.ufunc('unpk', ['Obj'], 'Obj')
     w.trusted.append('pickle.dumps/loads are uninterpreted with loads(dumps(x)) == x; _pickle_memoized(x) returns dumps(x)')
 
     CB = POOL + ':AbstractPool._compute_compile_preargs.<locals>.sync_worker_state_cb'
@@ -45,4 +44,49 @@ def build():
             'forall(Obj, lambda d: implies(d != dbname, (d in worker._dbs) == old(d in worker._dbs) and implies(d in worker._dbs, worker._dbs[d] == old(worker._dbs[d]))))',
             'forall(Worker, lambda o: implies(o != worker, o._dbs == old(o._dbs) and o._global_schema_pickle == old(o._global_schema_pickle) and o._system_config == old(o._system_config)))',
         ])
+    w.partial_types['sync_worker_state_cb'] = 'Cb'
+    w.contract(POOL, '_pickle_memoized', params={'schema': 'Obj'}, returns='Obj', pure=True, trusted=True,
+               ensures=['result == pk(schema)', 'bool(result)'])
+    def sent(i, comp, packed):
+        a = 'result[0][%d]' % i
+        val = 'pk(%s)' % comp if packed else comp
+        believed = {'user_schema_pickle': 'worker._dbs[dbname].user_schema_pickle', 'reflection_cache': 'worker._dbs[dbname].reflection_cache',
+                    'database_config': 'worker._dbs[dbname].database_config', 'global_schema_pickle': 'worker._global_schema_pickle',
+                    'system_config': 'worker._system_config'}[comp]
+        return [
+            # what is not transmitted is (by identity) what the server believes the worker holds
+            'implies(is_none(%s), dbname in worker._dbs and %s == %s)' % (a, believed, comp),
+            'implies(not is_none(%s), some(%s) == %s)' % (a, a, val),
+            # the acknowledgement callback records exactly the transmitted parts
+            'implies(not is_none(%s), not is_none(result[1]) and ("%s" in some(result[1]).kw) and some(result[1]).kw["%s"] == %s)' % (a, comp, comp, comp),
+            'implies(is_none(%s) and not is_none(result[1]), not ("%s" in some(result[1]).kw))' % (a, comp),
+        ]
+    ens = ['len(result[0]) == 7', 'some(result[0][0]) == method_name', 'some(result[0][1]) == dbname', 'not is_none(result[0][0])', 'not is_none(result[0][1])',
+           'implies(not (dbname in worker._dbs), not is_none(result[0][2]) and not is_none(result[0][3]) and not is_none(result[0][4]) and not is_none(result[0][5]) and not is_none(result[0][6]))',
+           'implies(not is_none(result[1]), some(result[1]).worker == worker and some(result[1]).dbname == dbname)',
+           'is_none(result[1]) == (is_none(result[0][2]) and is_none(result[0][3]) and is_none(result[0][4]) and is_none(result[0][5]) and is_none(result[0][6]))']
+    for i, comp, packed in [(2, 'user_schema_pickle', False), (3, 'reflection_cache', True), (4, 'global_schema_pickle', False), (5, 'database_config', True), (6, 'system_config', True)]:
+        ens += sent(i, comp, packed)
+    w.contract(POOL, 'AbstractPool._compute_compile_preargs',
+        params={'self': 'Obj', 'method_name': 'Obj', 'worker': 'Worker', 'dbname': 'Obj', 'user_schema_pickle': 'Obj', 'global_schema_pickle': 'Obj',
+                'reflection_cache': 'Obj', 'database_config': 'Obj', 'system_config': 'Obj'},
+        returns='Tuple[Seq[Opt[Obj]],Opt[Cb]]', ensures=ens,
+        hints={'var_types': {'to_update': 'Map[str,Obj]'}})
+    # ------------------------------------------------------------------ worker process
+    WSTATE = {'DBS': 'Map[Obj,DS]', 'GLOBAL_SCHEMA': 'Obj', 'INSTANCE_CONFIG': 'Obj'}
+    SYNC_PARAMS = {'dbname': 'Obj', 'user_schema': 'Opt[Obj]', 'reflection_cache': 'Opt[Obj]', 'global_schema': 'Opt[Obj]',
+                   'database_config': 'Opt[Obj]', 'system_config': 'Opt[Obj]'}
+    UNCHANGED = ['forall(Obj, lambda d: (d in DBS) == old(d in DBS) and implies(d in DBS, DBS[d] == old(DBS[d])))',
+                 'GLOBAL_SCHEMA == old(GLOBAL_SCHEMA)', 'INSTANCE_CONFIG == old(INSTANCE_CONFIG)']
+    SYNCED = ['dbname in DBS',
+              'DBS[dbname].user_schema == (unpk(some(user_schema)) if not is_none(user_schema) else old(DBS[dbname].user_schema))',
+              'DBS[dbname].reflection_cache == (unpk(some(reflection_cache)) if not is_none(reflection_cache) else old(DBS[dbname].reflection_cache))',
+              'DBS[dbname].database_config == (unpk(some(database_config)) if not is_none(database_config) else old(DBS[dbname].database_config))',
+              'GLOBAL_SCHEMA == (unpk(some(global_schema)) if not is_none(global_schema) else old(GLOBAL_SCHEMA))',
+              'INSTANCE_CONFIG == (unpk(some(system_config)) if not is_none(system_config) else old(INSTANCE_CONFIG))',
+              'forall(Obj, lambda d: implies(d != dbname, (d in DBS) == old(d in DBS) and implies(d in DBS, DBS[d] == old(DBS[d]))))']
+    w.contract(WORKER, '__sync__', params=SYNC_PARAMS, state=WSTATE, returns='DS', modifies=list(WSTATE),
+        ensures=SYNCED + ['result == DBS[dbname]'],
+        raises={'FailedStateSync': dict(ensures=UNCHANGED)},     # a failed state transfer leaves the worker's state as it was
+        hints={'var_types': {'updates': 'Map[str,Obj]'}, 'axioms': ['unpk']})
     return w
